@@ -21,6 +21,8 @@ EXPLANATION = ('Decoder blocks of BytecodeMachine::compileInstruction enumerated
          ' X86-HSEM, A64-HSEM, RV-HSEM, RV-BRANCH-RANGE/ENC.'
          ' INT-EXEC, FP-EXEC, X86-MEM-HSEM, X86-FP-HSEM.')
 
+EXPLANATION += ' A64-MEM-HSEM, RV-MEM-HSEM.'
+
 
 def run(ctx, R):
     F = astq.Facts(ctx, 'K0')
